@@ -536,7 +536,7 @@ theorem col_exists {A : Type} (o : Option A) : col o (fun _ => Val.bool true) = 
 theorem find_isSome_any {α} (xs : List α) (p : α → Bool) : (xs.find? p).isSome = xs.any p := by
   induction xs with
   | nil => rfl
-  | cons x xs ih => by_cases h : p x = true <;> simp [List.find?_cons, h, ih]
+  | cons x xs ih => by_cases h : p x = true <;> simp [h, ih]
 
 theorem insert_posting_conc (A : ADB) (txSeq : Val) (l : String) (ins : Val) (eff : Int) (p : Posting) (am : List (String × Meta)) :
     insert_posting (conc A) txSeq (.text l) ins (.ts eff) (.json (postingJ p)) (.json (.obj (amObj am))) =
@@ -549,8 +549,8 @@ theorem insert_posting_conc (A : ADB) (txSeq : Val) (l : String) (ins : Val) (ef
   have imT := fun A1 a x amt src h => insert_move_conc' A1 txSeq l ins eff a x amt src true h
   simp only [exVal, if_true] at imT
   by_cases hsd : p.source = p.destination
-  · simp [insert_posting, aInsertPosting, hs, hd, col_exists, find_isSome_any, us, ud, hsd, insert_move_conc', imT, aUpsertAccount_any]
-  · simp [insert_posting, aInsertPosting, hs, hd, col_exists, find_isSome_any, us, ud, hsd, insert_move_conc', imT, aUpsertAccount_any]
+  · simp [insert_posting, aInsertPosting, hd, col_exists, find_isSome_any, ud, hsd, insert_move_conc', imT, aUpsertAccount_any]
+  · simp [insert_posting, aInsertPosting, hs, hd, col_exists, find_isSome_any, us, ud, hsd, insert_move_conc', aUpsertAccount_any]
 
 -- ---------------------------------------------------------------- insert_transaction
 
@@ -654,7 +654,7 @@ theorem insert_transaction_conc (A : ADB) (l : String) (tx : Tx) (d : Val) (am :
   have ins_ := insert_transactions_conc A (aTxRow 0 l tx)
   simp only [ATx.row, aTxRow] at ins_
   unfold insert_transaction
-  simp only [tx_postings, tx_metadata, tx_metadata_text, tx_timestamp, tx_id, Int.add_zero, coalesce_json, ins_, jsonbArrayElements_arr]
+  simp only [tx_postings, tx_metadata, tx_timestamp, tx_id, Int.add_zero, coalesce_json, ins_, jsonbArrayElements_arr]
   generalize hfe : Sql.forEach _ _ _ = s'
   obtain ⟨k1, k2, k3, k4⟩ := forEach_postings' hfe
     (fun e => e._ledger = .text l ∧ e.data = .json (txJ 0 tx) ∧ e._seq = .int A.txSeq ∧ e._date = d ∧ e._account_metadata = .json (.obj (amObj am)))
@@ -732,7 +732,7 @@ theorem handle_log_conc (A : ADB) (log : CLog) (s : Val) :
       simp [payloadJ, Val.arrowText, Val.arrow, Val.keyOf, J.lookup, Val.castNumeric]
     have h3 := fun A1 => insert_transaction_conc A1 l tx (.ts d) []
     simp only [amObj, List.map_nil] at h3
-    simp only [handle_log, logRow, typeName, h1, h2, h3, aHandle, eq_text_text, truthy_bool, tx_timestamp, Int.add_zero, revert_transaction_conc]
+    simp only [handle_log, logRow, typeName, h1, h2, aHandle, eq_text_text, truthy_bool, tx_timestamp, Int.add_zero]
     simp only [show ("REVERTED_TRANSACTION" == "NEW_TRANSACTION") = false from by decide, show ("REVERTED_TRANSACTION" == "REVERTED_TRANSACTION") = true from by decide,
       show ("REVERTED_TRANSACTION" == "SET_METADATA") = false from by decide, show ("REVERTED_TRANSACTION" == "DELETE_METADATA") = false from by decide,
       if_true, if_false, Bool.false_eq_true]
